@@ -273,6 +273,18 @@ func memberLoss(o *onto.Onto, in, out map[string]interface{}, path string, top b
 	return lost
 }
 
+// appendCtx returns the @context value c extended by one more entry.
+func appendCtx(c interface{}, extra interface{}) interface{} {
+	l := L{}
+	switch x := c.(type) {
+	case string:
+		l = append(l, x)
+	case []interface{}:
+		l = append(l, x...)
+	}
+	return append(l, extra)
+}
+
 func listOf(v interface{}) []interface{} {
 	l, _ := v.([]interface{})
 	return l
@@ -305,6 +317,9 @@ type c01case struct {
 	class string // family|feature (used for violation keys)
 	doc   M
 	canon bool
+	// exactCtx, if set, is the @context the re-encoded document must carry (the input names more
+	// than it uses; the output must name exactly the vocabularies used)
+	exactCtx interface{}
 }
 
 // C01 — ActivityStreams documents survive decode -> encode without loss.
@@ -313,7 +328,7 @@ func C01(tier string) int {
 	o := LoadOnto()
 	types, props := o.TypeKeys(), o.PropKeys()
 	var cases []c01case
-	add := func(class string, doc M, canon bool) { cases = append(cases, c01case{class, doc, canon}) }
+	add := func(class string, doc M, canon bool) { cases = append(cases, c01case{class: class, doc: doc, canon: canon}) }
 	emb := func(tk string, n int) M { return embedded(o, tk, fmt.Sprintf("https://x.example/e%d", n)) }
 	maxSamples := 1
 	if res.Thorough() {
@@ -511,6 +526,31 @@ func C01(tier string) int {
 			}
 		}
 	}
+	// F3b: canonical documents whose own @context names MORE than the document uses (every shipped
+	// vocabulary; an unknown extension URL; an inline term map): the re-encoded @context names exactly
+	// the vocabularies used
+	for _, tk := range topTypes {
+		d := M{"type": o.Types[tk].Name, "id": "https://x.example/v"}
+		if o.HasProp(tk, "ActivityStreams/name") {
+			d["name"] = "x"
+		}
+		exact := withContext(o, d, tk)
+		all := L{}
+		for _, v := range o.Vocabs {
+			all = append(all, rawURI(v))
+		}
+		for vi, sup := range []interface{}{all, appendCtx(exact["@context"], "https://unknown.example/ext/v1"), appendCtx(exact["@context"], M{"Hashtag": "as:Hashtag", "sensitive": "as:sensitive"})} {
+			if vi == 0 && len(all) == len(ctxSet(exact["@context"])) {
+				continue
+			}
+			dd := M{}
+			for k, v := range exact {
+				dd[k] = v
+			}
+			dd["@context"] = sup
+			cases = append(cases, c01case{class: fmt.Sprintf("canonical|context-names-more-than-used-%d", vi), doc: dd, canon: true, exactCtx: exact["@context"]})
+		}
+	}
 	// F4: accepted but non-canonical forms (no-loss and idempotence clauses only)
 	nc := func(class string, d M) { add("non-canonical|"+class, withContext(o, d, "ActivityStreams/Note"), false) }
 	note := func(kv ...interface{}) M {
@@ -564,7 +604,7 @@ func C01(tier string) int {
 	nc("empty-string-members", note("content", "", "summary", ""))
 
 	// ---- run ----
-	res.Rule = fmt.Sprintf("documents derived from the ontology grammar: every (type, property, kind in range closure + IRI) x {scalar, list of 2, mixed list <=4, language map} (canonical), nesting depth 2-3 through object/attachment/tag/inReplyTo for every type, unknown members from a 10-value alphabet under 3 key spellings at top level and nested, every (type, name of a property the type does not have) as a member (top level; every 16th nested), lists of 2-3 same-kind elements of which exactly one (each position) nests a value of another vocabulary, and %d accepted-but-non-canonical shapes; %d documents in total; oracle: (a) canonical: encode(decode(d)) JSON-equal to d with @context compared as a set that must equal the vocabularies the oracle says the document uses; (b) no member lost except nested @context / null for a known property, natural-language members modulo the Map spelling; (c) a second round trip changes nothing unless the document holds such a null or an array directly inside an array; non-trivial = documents the decoder accepted, distinct by (family, type, member names)", 22+6*10+len(o.Vocabs), len(cases))
+	res.Rule = fmt.Sprintf("documents derived from the ontology grammar: every (type, property, kind in range closure + IRI) x {scalar, list of 2, mixed list <=4, language map} (canonical), nesting depth 2-3 through object/attachment/tag/inReplyTo for every type, unknown members from a 10-value alphabet under 3 key spellings at top level and nested, every (type, name of a property the type does not have) as a member (top level; every 16th nested), lists of 2-3 same-kind elements of which exactly one (each position) nests a value of another vocabulary, every type under an @context that names more than it uses (all shipped vocabularies / an unknown extension URL / an inline term map), and %d accepted-but-non-canonical shapes; %d documents in total; oracle: (a) canonical: encode(decode(d)) JSON-equal to d with @context compared as a set that must equal the vocabularies the oracle says the document uses; (b) no member lost except nested @context / null for a known property, natural-language members modulo the Map spelling; (c) a second round trip changes nothing unless the document holds such a null or an array directly inside an array; non-trivial = documents the decoder accepted, distinct by (family, type, member names)", 22+6*10+len(o.Vocabs), len(cases))
 	var mu sync.Mutex
 	chunk := 4000
 	par((len(cases)+chunk-1)/chunk, func(ci int) {
@@ -601,6 +641,14 @@ func C01(tier string) int {
 			}
 			sort.Strings(names)
 			classes[fmt.Sprintf("%s|%v|%s", c.class, in["type"], strings.Join(names, ","))] = struct{}{}
+			if c.exactCtx != nil {
+				in2 := map[string]interface{}{}
+				for k, v := range in {
+					in2[k] = v
+				}
+				in2["@context"] = jsonNorm(c.exactCtx)
+				in = in2
+			}
 			if c.canon && !equalModCtx(in, out) {
 				vs = append(vs, viol{"not-json-equal|" + c.class + "|" + diffMembers(in, out), fmt.Sprintf("round trip of canonical document differs in %s: in=%s out=%s", diffMembers(in, out), short(in), short(out)), M{"check": "C01", "doc": in, "out": out}})
 			}
